@@ -4,6 +4,9 @@ import (
 	"fmt"
 	"os"
 	"path/filepath"
+	"regexp"
+	"runtime"
+	"runtime/debug"
 	"sort"
 	"strings"
 	"sync"
@@ -32,6 +35,12 @@ import (
 // creator needs is held there: the dictionary / schema / index stores only lock around their
 // in-memory swap, and the kv version-set lock held while the manifest is written is not taken by
 // any lookup path).
+//
+// Read-only metadata queries (query_test.go) are operations of the same histories: between any two
+// steps and - like the writes - re-entrantly at the file-system seams inside a Flush, because the
+// query goroutines of a storage node run next to the flush job. Every []byte argument of a
+// get-or-create call lives in the reused buffers of the case's wire (c09_test.go) and is
+// overwritten after the call returned.
 
 const (
 	phIdle = iota
@@ -69,7 +78,8 @@ type hist struct {
 
 	inFlush                      string // "meta" / "idx<i>" while a Flush call is in flight
 	pointsInFlush, copiesInFlush int
-	nestBudget                   int
+	nestBudget, nestQBudget      int
+	w                            *wire           // the reused buffers all []byte arguments of this case live in
 	imgDur                       map[int]durable // by crash.Point.Seq
 
 	fresh     int
@@ -85,9 +95,24 @@ func (h *hist) logf(format string, args ...any) {
 	h.ops = append(h.ops, fmt.Sprintf(format, args...))
 }
 
+// guarded runs one step of the history. A run-time error inside lindb (index out of range, nil
+// dereference, and - with SetPanicOnFault - a read of memory that is no longer mapped) is
+// reported with the history like any other failure.
+func (h *hist) guarded(fn func()) {
+	defer func() {
+		if r := recover(); r != nil {
+			if re, ok := r.(runtime.Error); ok {
+				h.fatalf("RUN-TIME ERROR inside a call: %v\n%s", re, debug.Stack())
+			}
+			panic(r) // rapid's own control flow
+		}
+	}()
+	fn()
+}
+
 func (h *hist) fatalf(format string, args ...any) {
 	h.t.Helper()
-	h.t.Fatalf(format+"\nhistory (%d index databases):\n  %s", append(args, h.nIdx, strings.Join(h.ops, "\n  "))...)
+	h.t.Fatalf(format+"\nhistory (%d index databases, []byte arguments in reused buffers, overwritten after each call: %s):\n  %s", append(args, h.nIdx, h.w.mode, strings.Join(h.ops, "\n  "))...)
 }
 
 var (
@@ -139,7 +164,7 @@ func (h *hist) write(label string) {
 	h.m.seq++
 	h.logf("%swrite seq=%d %s shard=%d workers=%s", label, h.m.seq, r, shard, mode)
 	before := h.m.count()
-	if err := h.applyRow(h.n, h.m, r, shard, mode); err != nil {
+	if err := applyRow(h.n, h.w, h.m, r, shard, mode); err != nil {
 		h.fatalf("%v", err)
 	}
 	h.idsSinceSync += h.m.count() - before
@@ -149,23 +174,128 @@ func (h *hist) write(label string) {
 	}
 }
 
-func (h *hist) applyRow(n *node, m *model, r rowSpec, shard int, mode string) error {
-	row, err := buildRow(r)
+func applyRow(n *node, w *wire, m *model, r rowSpec, shard int, mode string) error {
+	block, err := marshalRow(r)
 	if err != nil {
 		return fmt.Errorf("harness: build row: %w", err)
 	}
 	var out []obs
-	for _, w := range strings.Split(mode, "+") {
-		if w == "meta" {
-			err = metaWorkerRow(n, r, row, &out)
+	for _, wk := range strings.Split(mode, "+") {
+		if wk == "meta" {
+			err = metaWorkerRow(n, w, r, &out)
 		} else {
-			err = indexWorkerRow(n, shard, r, row, &out)
+			err = indexWorkerRow(n, w, shard, r, block, &out)
 		}
 		if err != nil {
 			return err
 		}
 	}
 	return m.observeAll(r, out)
+}
+
+// ---- read-only metadata queries (query_test.go) as operations of the history --------------------
+
+// pick draws one of the known names (3 of 4 draws, when there are any) or one of the extra names:
+// names nobody created, names that share a dictionary bucket / a prefix with created ones.
+func (h *hist) pick(label string, known, extra []string) string {
+	if len(known) > 0 && rapid.IntRange(0, 3).Draw(h.t, label+"Known") != 0 {
+		return rapid.SampledFrom(known).Draw(h.t, label)
+	}
+	return rapid.SampledFrom(extra).Draw(h.t, label+"Extra")
+}
+
+func cutName(t *rapid.T, label, s string) string {
+	return s[:rapid.IntRange(0, len(s)).Draw(t, label)]
+}
+
+func (h *hist) drawQuery(label string) querySpec {
+	t := h.t
+	q := querySpec{Kind: rapid.SampledFrom(queryKinds).Draw(t, label+"kind")}
+	q.Limit = rapid.SampledFrom([]int{1, 2, 3, 5, 10, 100}).Draw(t, label+"limit")
+	// a known metric (its namespace / tag keys / values are the known names of the inner scopes)
+	var mk mkey
+	var mm *metricM
+	if ks := sortedMetricKeys(h.m.metrics); len(ks) > 0 {
+		mk = rapid.SampledFrom(ks).Draw(t, label+"aMetric")
+		mm = h.m.metrics[mk]
+	}
+	var knownNS, knownMetric, knownKeys, knownVals []string
+	if mm != nil {
+		knownNS, knownMetric, knownKeys = []string{mk.NS}, []string{mk.Name}, sortedKeys(mm.tagKeys)
+	}
+	q.NS = h.pick(label+"ns", knownNS, append([]string{"ns-c", "d", "zz-ns", "other"}, nsUniverse...))
+	if q.Kind == qNamespaces {
+		q.Prefix = cutName(t, label+"cut", q.NS)
+		return q
+	}
+	q.Metric = h.pick(label+"metric", knownMetric, append([]string{"cp", "cpu.", "zz-metric", "nope"}, metricUniverse...))
+	if q.Kind == qMetrics {
+		q.Prefix = cutName(t, label+"cut", q.Metric)
+		q.Metric = ""
+		return q
+	}
+	if q.Kind == qSchema {
+		return q
+	}
+	q.Key = h.pick(label+"key", knownKeys, append([]string{"hos", "zk", "nokey"}, keyUniverse...))
+	if q.Kind == qSeries && rapid.IntRange(0, 2).Draw(t, label+"noKey") == 0 {
+		q.Key = ""
+		return q
+	}
+	if mm != nil && mk == q.mkey() && mm.tagKeys[q.Key] != nil {
+		knownVals = sortedKeys(mm.tagKeys[q.Key].values)
+	}
+	val := func(l string) string {
+		return h.pick(label+l, knownVals, append([]string{"v1", "v2", "zz-val", "nope"}, valUniverse...))
+	}
+	switch q.Kind {
+	case qTagValues:
+		q.Prefix = cutName(t, label+"cut", val("val"))
+	case qTagFilter:
+		q.Expr = rapid.SampledFrom([]string{"eq", "in", "like", "regex"}).Draw(t, label+"expr")
+		v := val("val")
+		switch q.Expr {
+		case "eq":
+			q.Args = []string{v}
+		case "in":
+			q.Args = []string{v}
+			for i := rapid.IntRange(0, 2).Draw(t, label+"nIn"); i > 0; i-- {
+				q.Args = append(q.Args, val("inVal"))
+			}
+		case "like":
+			q.Args = []string{rapid.SampledFrom([]string{"*", v[:1] + "*", "*" + v[len(v)-1:], "*" + v[:1] + "*", v, v + "*"}).Draw(t, label+"like")}
+		default:
+			q.Args = []string{rapid.SampledFrom([]string{"^" + regexp.QuoteMeta(v[:1]), regexp.QuoteMeta(v) + "$", regexp.QuoteMeta(v[:1]), ".*", "^v[0-9]+$", "^(a|b)$"}).Draw(t, label+"regex")}
+		}
+	}
+	return q
+}
+
+// query runs one read-only metadata query on the live node and judges its answer. The history is
+// sequential, so the model is exactly what exists - also at a file-system seam inside a Flush
+// (frozen names are still served from memory until the flush swaps them for the new files).
+func (h *hist) query(label string) {
+	q := h.drawQuery(label)
+	out, err := execQuery(h.n, q)
+	if err != nil {
+		h.logf("%squery %s", label, q)
+		h.fatalf("live node: %v", err)
+	}
+	h.logf("%squery %s -> %s", label, q, out)
+	if err := h.m.judge(q, out, true); err != nil {
+		h.fatalf("live node: %v", err)
+	}
+	h.classes["query"]++
+	h.classes["query-"+q.Kind]++
+	if out.Names != nil && h.dur.Meta > 0 {
+		h.classes["query-suggest-with-persisted-dictionaries"]++
+	}
+	if out.MetricAsked && !out.MetricFound {
+		h.classes["query-unknown-metric"]++
+	}
+	if label != "" {
+		h.classes["query-nested-in-"+h.inFlush]++
+	}
 }
 
 // ---- flush protocol --------------------------------------------------------------------------
@@ -233,6 +363,7 @@ func (h *hist) flushStep() {
 func (h *hist) runFlush(what string, fn func() error) {
 	h.inFlush = what
 	h.nestBudget = rapid.IntRange(0, 2).Draw(h.t, "nestBudget")
+	h.nestQBudget = rapid.IntRange(0, 2).Draw(h.t, "nestQBudget")
 	h.pointsInFlush, h.copiesInFlush = 0, 0
 	if what == "meta" {
 		h.idsSinceSync = 0 // Flush starts with the sequence sync
@@ -285,6 +416,10 @@ func (h *hist) onPoint(p crash.Point) {
 		h.nestBudget--
 		h.write(fmt.Sprintf("[nested in %s Flush %s %s(%s)] ", h.inFlush, beforeAfter(p.Before), p.FSOp, filepath.Base(filepath.Dir(p.Path))))
 	}
+	if h.nestQBudget > 0 && rapid.IntRange(0, 7).Draw(h.t, "nestQueryHere") == 0 {
+		h.nestQBudget--
+		h.query(fmt.Sprintf("[nested in %s Flush %s %s(%s)] ", h.inFlush, beforeAfter(p.Before), p.FSOp, filepath.Base(filepath.Dir(p.Path))))
+	}
 }
 
 func beforeAfter(b bool) string {
@@ -320,7 +455,7 @@ func (h *hist) reopen() {
 		all.Idx[i] = h.m.seq
 	}
 	h.dur = all
-	rm, err := checkRecovered(h.n, h.m, all, func(s string) { h.classes[s]++ })
+	rm, err := checkRecovered(h.n, h.w, h.m, all, func(s string) { h.classes[s]++ })
 	if err != nil {
 		h.fatalf("after reopen: %v", err)
 	}
@@ -365,7 +500,7 @@ func (h *hist) recoverImage(p crash.Point) {
 	// image simply are not found; the image's own durability knowledge decides what must be found.
 	dur := h.imgDur[p.Seq]
 	// work on a copy of the model: the recovered node's world diverges from the live one
-	if _, err := checkRecovered(n, h.m.clone(), dur, func(s string) { h.classes[s]++ }); err != nil {
+	if _, err := checkRecovered(n, h.w, h.m.clone(), dur, func(s string) { h.classes[s]++ }); err != nil {
 		h.fatalf("image %s: %v", p, err)
 	}
 	h.imagesChecked++
@@ -417,7 +552,7 @@ func (m *model) clone() *model {
 // again and new names are created through the worker call sequences; a name that was not found
 // must not get an id that any recovered entry uses for another name; the recovered node as a
 // whole must satisfy the live oracle (functional, injective, lookups agree).
-func checkRecovered(n *node, m *model, dur durable, class func(string)) (*model, error) {
+func checkRecovered(n *node, w *wire, m *model, dur durable, class func(string)) (*model, error) {
 	rm := newModel(m.nIdx) // what the recovered node tells its callers
 	rm.seq = m.seq + 1
 
@@ -671,16 +806,16 @@ func checkRecovered(n *node, m *model, dur durable, class func(string)) (*model,
 		return nil
 	}
 	request := func(i int, r rowSpec, mode string) error {
-		row, err := buildRow(r)
+		block, err := marshalRow(r)
 		if err != nil {
 			return fmt.Errorf("harness: %w", err)
 		}
 		var out []obs
-		for _, w := range strings.Split(mode, "+") {
-			if w == "meta" {
-				err = metaWorkerRow(n, r, row, &out)
+		for _, wk := range strings.Split(mode, "+") {
+			if wk == "meta" {
+				err = metaWorkerRow(n, w, r, &out)
 			} else {
-				err = indexWorkerRow(n, i, r, row, &out)
+				err = indexWorkerRow(n, w, i, r, block, &out)
 			}
 			if err != nil {
 				return err
@@ -870,6 +1005,8 @@ func runHistory(t *rapid.T, thorough bool) {
 		idxPrepSeq: make([]int, nIdx), dur: durable{Idx: make([]int, nIdx)},
 		imgDur: map[int]durable{}, classes: map[string]int{},
 	}
+	defer debug.SetPanicOnFault(debug.SetPanicOnFault(true))
+	h.w = newWire(rapid.SampledFrom(wireModes).Draw(t, "wireMode"))
 	h.im = &crash.Imager{Root: h.root, OutDir: filepath.Join(dir, "img"), OnPoint: h.onPoint}
 	h.im.Want = h.wantImage
 	kv.VerifSetFSHook(h.im.Hook)
@@ -892,49 +1029,52 @@ func runHistory(t *rapid.T, thorough bool) {
 	h.n = n
 	h.write("")
 
+	step := func(fn func()) func(*rapid.T) {
+		return func(t *rapid.T) { h.t = t; h.guarded(fn) }
+	}
 	t.Repeat(map[string]func(*rapid.T){
-		"write":     func(t *rapid.T) { h.t = t; h.write("") },
-		"write2":    func(t *rapid.T) { h.t = t; h.write("") },
-		"flushStep": func(t *rapid.T) { h.t = t; h.flushStep() },
-		"flushStep2": func(t *rapid.T) {
-			h.t = t
-			h.flushStep()
-		},
-		"reopen": func(t *rapid.T) {
-			h.t = t
+		"write":      step(func() { h.write("") }),
+		"write2":     step(func() { h.write("") }),
+		"query":      step(func() { h.query("") }),
+		"flushStep":  step(h.flushStep),
+		"flushStep2": step(h.flushStep),
+		"reopen": step(func() {
 			if h.phase != phIdle {
-				t.Skip("flush cycle in progress")
+				h.t.Skip("flush cycle in progress")
 			}
 			h.reopen()
-		},
-		"crash": func(t *rapid.T) {
-			h.t = t
+		}),
+		"crash": step(func() {
 			if len(h.im.Points) == 0 {
-				t.Skip("no pending images")
+				h.t.Skip("no pending images")
 			}
 			h.crashCheck()
-		},
-		"": func(t *rapid.T) {
-			h.t = t
+		}),
+		"": step(func() {
 			if err := checkAll(h.n, h.m, true); err != nil {
 				h.fatalf("live node: %v", err)
 			}
-		},
+		}),
 	})
 	h.t = t
-	h.crashCheck()
-	h.reopen()
-	if err := checkAll(h.n, h.m, true); err != nil {
-		h.fatalf("live node after final reopen: %v", err)
-	}
+	h.guarded(func() {
+		h.crashCheck()
+		h.reopen()
+		if err := checkAll(h.n, h.m, true); err != nil {
+			h.fatalf("live node after final reopen: %v", err)
+		}
+	})
 
-	canon := fmt.Sprintf("%d|%v", nIdx, h.ops)
+	canon := fmt.Sprintf("%d|%s|%v", nIdx, h.w.mode, h.ops)
+	h.classes["wire-"+h.w.mode] = 1
+	h.classes["wire-calls-with-reused-arguments"] = h.w.calls + h.w.rows
+	h.classes["wire-bytes-overwritten-after-return"] = h.w.overwritten
 	for c, n := range h.classes {
 		ev.Class("TestHistory", c, n)
 	}
 	nt := h.classes["image-with-ids-after-sync"] > 0 && h.imagesChecked > 0
 	ev.Case("TestHistory", canon, nt, nil, map[string]any{
-		"index_databases": nIdx, "history": h.ops, "images_recovered": h.imagesChecked,
+		"index_databases": nIdx, "wire_mode": h.w.mode, "history": h.ops, "images_recovered": h.imagesChecked,
 	})
 	for _, hs := range h.ntHashes {
 		ev.Case("crash-points", canon+"|"+hs, true, nil, nil)
